@@ -39,6 +39,8 @@ OUTSIDE = {                     # relative to the temp dir that holds root
     "root2/index.html": b"OUTSIDE root2 index",
     "root2/a": b"OUTSIDE root2/a",
     "rootx": b"OUTSIDE rootx file",
+    "Root/secret": b"OUTSIDE Root/secret (the root's name in another letter case)",
+    "ROOT/a": b"OUTSIDE ROOT/a",
     "secret": b"OUTSIDE parent secret",
     "a": b"OUTSIDE parent a",
     "index.html": b"OUTSIDE parent index",
@@ -65,10 +67,10 @@ def etag_of(content):
     return b'"' + hashlib.sha512(content).hexdigest().encode() + b'"'
 
 
-SEGS = ["..", ".", "", "a", "sub", "secret", "index.html", "empty", "root", "root2", "rootx",
+SEGS = ["..", ".", "", "a", "sub", "secret", "index.html", "empty", "root", "root2", "rootx", "Root", "ROOT",
         "<ABS>", "<ENCABS>", "%2e%2e", "%2E.", "%2f", "..%2f", "%00", "a%00", "\\", "..\\",
         "%5c", "%252e%252e", "nosuch"]
-CORE = ["..", "", "a", "sub", "root", "root2", "rootx", "<ABS>", "%2e%2e", "%2f", "..%2f", "%00",
+CORE = ["..", "", "a", "sub", "root", "root2", "rootx", "Root", "<ABS>", "%2e%2e", "%2f", "..%2f", "%00",
         "\\", "nosuch"]
 CORE4 = ["..", "", "a", "sub", "root2", "<ABS>", "%2e%2e", "%2f", "%00", "\\"]
 JOIN = ["/", "//"]
